@@ -28,7 +28,7 @@ def const_range(e):
     return None
 
 
-ROOT_VARS = ("si",)   # user variables that play the role of the matched value (`match si { .. }`)
+ROOT_VARS = ("si", "instr")   # user variables that play the role of the matched value (`match si { .. }`)
 
 
 def find_self_fields(e, depth=0):
